@@ -1,6 +1,7 @@
 import KyupyVerif.Drv.Sdf
 import KyupyVerif.Drv.Encode
 import KyupyVerif.Drv.Stil
+import KyupyVerif.Drv.StilSim
 import KyupyVerif.Drv.Def
 import KyupyVerif.Drv.Datasheet
 import KyupyVerif.Drv.Traverse
@@ -20,6 +21,7 @@ def extHandlers : List (String → List String → Option String) := [
   KV.Drv.Sdf.handle,
   KV.Drv.Encode.handle,
   KV.Drv.Stil.handle,
+  KV.Drv.StilSim.handle,
   KV.Drv.Def.handle,
   KV.Drv.Datasheet.handle,
   KV.Drv.Traverse.handle,
